@@ -3,7 +3,8 @@
   `parseBoxes`, `getOneMut`, `forEachOfType`, `parseCo`) sees exactly what the independent walker sees in that
   region of the stream (`children`, `only`, `tableOf`, `moovTables` of Spec/Mp4Walk.lean).
 -/
-import MediaSan.Lemmas.TopRel
+import MediaSan.Lemmas.MediaRun
+import MediaSan.Lemmas.Slices
 namespace MediaSan.Mp4
 open MediaSan MediaSan.Spec.Mp4Walk MediaSan.Spec.Mp4Rules
 
@@ -79,7 +80,7 @@ def Corr {C : Type} : List (Box C) → List TopBox → Prop
     (match c.hdr.ty with
       | .fourcc x => x ≠ uuidName
       | .uuid _ => True) ∧
-    c.data = .bytes (s.read b.payloadOff b.payloadLen) ∧ Corr cs bs
+    c.data = .bytes (s.read b.payloadOff b.payloadLen) ∧ b.payloadOff ≤ b.endOff ∧ Corr cs bs
   | _, _ => False
 
 /-- `Boxes::parse` over the slice [off, lim) of the stream walks exactly the walker's chain of boxes there -/
@@ -123,7 +124,7 @@ theorem parseBoxes_chain {C : Type} (fuel off lim : Nat) (cs : List (Box C)) (hf
             subst hp
             have hb := spec_untilEof off lim none h hds (Or.inl rfl)
             refine ⟨[⟨off, h.encodedLen, name4 h, lim, false⟩], ⟨by rw [hspec]; exact hb, rfl, by dsimp only; omega, rfl⟩, ?_⟩
-            refine ⟨rfl, hh.2.1, ?_, trivial⟩
+            refine ⟨rfl, hh.2.1, ?_, by dsimp only [TopBox.payloadOff]; omega, trivial⟩
             dsimp only [TopBox.payloadOff, TopBox.payloadLen]
             rw [hrest]
             congr 2
@@ -148,12 +149,372 @@ theorem parseBoxes_chain {C : Type} (fuel off lim : Nat) (cs : List (Box C)) (hf
                 have hb := spec_sized off lim none h n hds
                 refine ⟨⟨off, h.encodedLen, name4 h, off + h.encodedLen + n, true⟩ :: bs',
                   ⟨by rw [hspec]; exact hb, rfl, by dsimp only; omega, hc'⟩, ?_⟩
-                refine ⟨rfl, hh.2.1, ?_, hcorr'⟩
+                refine ⟨rfl, hh.2.1, ?_, by dsimp only [TopBox.payloadOff]; omega, hcorr'⟩
                 dsimp only [TopBox.payloadOff, TopBox.payloadLen]
                 congr 2
                 omega
             · simp only [hn, if_false] at hp
               cases hp
+
+/-- a container payload that the model parses is what the walker calls the children of the box -/
+theorem children_of_parse {C : Type} (b : TopBox) (cs : List (Box C)) (hle : b.payloadOff ≤ b.endOff)
+    (hp : parseContainer (s.read b.payloadOff b.payloadLen) = .ok cs) :
+    ∃ bs, children s b = some bs ∧ Corr s cs bs := by
+  unfold parseContainer at hp
+  rw [read_length] at hp
+  have hlen : b.payloadLen = b.endOff - b.payloadOff := rfl
+  rw [hlen] at hp
+  obtain ⟨bs, hc, hcorr⟩ := parseBoxes_chain s (b.endOff - b.payloadOff) b.payloadOff b.endOff cs (Nat.le_refl _) hle hp
+  refine ⟨bs, ?_, hcorr⟩
+  unfold children walkAll
+  rw [walk_of_chain s b.endOff none bs b.payloadOff _ hc (by left; omega)]
+
+/-! ### type tests and filters along `Corr` -/
+
+theorem corr_ty {C : Type} (c : Box C) (b : TopBox) (nm : Bytes) (hnm : nm ≠ uuidName) (h1 : name4 c.hdr = b.name)
+    (h2 : match c.hdr.ty with | .fourcc x => x ≠ uuidName | .uuid _ => True) :
+    (c.hdr.ty == BoxType.fourcc nm) = decide (b.name = nm) := by
+  have := ty_eq_iff c.hdr nm hnm h2
+  rw [h1] at this
+  by_cases hb : b.name = nm
+  · simp only [hb, decide_true]; rw [beq_iff_eq]; exact this.mpr hb
+  · simp only [hb, decide_false]
+    cases hq : (c.hdr.ty == BoxType.fourcc nm) with
+    | false => rfl
+    | true => rw [beq_iff_eq] at hq; exact absurd (this.mp hq) hb
+
+theorem corr_filter_len {C : Type} (nm : Bytes) (hnm : nm ≠ uuidName) (cs : List (Box C)) (bs : List TopBox)
+    (hc : Corr s cs bs) :
+    countType (.fourcc nm) cs = (bs.filter (fun b => decide (b.name = nm))).length ∧
+    hasType (.fourcc nm) cs = bs.any (fun b => decide (b.name = nm)) := by
+  induction cs generalizing bs with
+  | nil =>
+    cases bs with
+    | nil => exact ⟨rfl, rfl⟩
+    | cons b bs => exact hc.elim
+  | cons c cs ih =>
+    cases bs with
+    | nil => exact hc.elim
+    | cons b bs =>
+      obtain ⟨h1, h2, _, _, h4⟩ := hc
+      obtain ⟨i1, i2⟩ := ih bs h4
+      have e := corr_ty c b nm hnm h1 h2
+      unfold countType hasType at *
+      simp only [List.filter_cons, List.any_cons, e]
+      by_cases hb : b.name = nm
+      · simp only [hb, decide_true, if_true, List.length_cons, Bool.true_or]
+        exact ⟨by rw [i1], trivial⟩
+      · simp only [hb, decide_false, Bool.false_eq_true, if_false, Bool.false_or]
+        exact ⟨i1, i2⟩
+
+theorem pure_bind_ok {α β : Type} (m : PureRes α) (f : α → PureRes β) (b : β) (h : (m >>= f) = .ok b) :
+    ∃ a, m = .ok a ∧ f a = .ok b := by
+  cases m with
+  | ok a => exact ⟨a, rfl, h⟩
+  | err e => cases h
+  | panic x => cases h
+
+/-- a lazily parsed payload that is still raw bytes: `modify` parses it and applies the mutation -/
+theorem modify_bytes {C α : Type} (parse : Bytes → PureRes C) (g : C → PureRes (C × α)) (x : Bytes) (d : Data C) (a : α)
+    (h : (Data.bytes x).modify parse g = .ok (d, a)) : ∃ inner r, parse x = .ok inner ∧ g inner = .ok (r, a) := by
+  unfold Data.modify at h
+  obtain ⟨inner, h1, h2⟩ := pure_bind_ok _ _ _ h
+  obtain ⟨ra, h3, h4⟩ := pure_bind_ok _ _ _ h2
+  obtain ⟨r, a'⟩ := ra
+  simp only [pure, PureRes.ok.injEq, Prod.mk.injEq] at h4
+  exact ⟨inner, r, h1, by rw [h3, h4.2]⟩
+
+theorem modifyFirst_rel {C α : Type} (nm : Bytes) (hnm : nm ≠ uuidName) (parse : Bytes → PureRes C)
+    (g : C → PureRes (C × α)) (cs : List (Box C)) (bs : List TopBox) (hc : Corr s cs bs) (cs' : List (Box C)) (a : α)
+    (h : modifyFirst (.fourcc nm) parse g cs = .ok (cs', a)) :
+    ∃ b pre post, bs = pre ++ b :: post ∧ (∀ x ∈ pre, x.name ≠ nm) ∧ b.name = nm ∧
+      ∃ inner r, parse (s.read b.payloadOff b.payloadLen) = .ok inner ∧ g inner = .ok (r, a) := by
+  induction cs generalizing bs cs' a with
+  | nil => simp [modifyFirst] at h
+  | cons c cs ih =>
+    cases bs with
+    | nil => exact hc.elim
+    | cons b bs =>
+      obtain ⟨h1, h2, h3, _, h4⟩ := hc
+      have e := corr_ty c b nm hnm h1 h2
+      unfold modifyFirst at h
+      rw [e] at h
+      by_cases hb : b.name = nm
+      · simp only [hb, decide_true, if_true] at h
+        obtain ⟨da, hm, hx⟩ := pure_bind_ok _ _ _ h
+        obtain ⟨d, a'⟩ := da
+        rw [h3] at hm
+        obtain ⟨inner, r, p1, p2⟩ := modify_bytes parse g _ d a' hm
+        simp only [pure, PureRes.ok.injEq, Prod.mk.injEq] at hx
+        exact ⟨b, [], bs, rfl, (by intro x hx'; cases hx'), hb, inner, r, p1, by rw [p2, hx.2]⟩
+      · simp only [hb, decide_false, Bool.false_eq_true, if_false] at h
+        obtain ⟨ba, hm, hx⟩ := pure_bind_ok _ _ _ h
+        obtain ⟨bs', a'⟩ := ba
+        simp only [pure, PureRes.ok.injEq, Prod.mk.injEq] at hx
+        obtain ⟨b0, pre, post, e0, e1, e2, e3⟩ := ih bs h4 bs' a' hm
+        refine ⟨b0, b :: pre, post, by rw [e0]; rfl, ?_, e2, ?_⟩
+        · intro x hx'
+          rcases List.mem_cons.mp hx' with q | q
+          · rw [q]; exact hb
+          · exact e1 x q
+        · rw [← hx.2]; exact e3
+
+/-- `get_one_mut::<T>()` on freshly parsed children is the walker's `only` -/
+theorem getOne_rel {C α : Type} (nm : Bytes) (hnm : nm ≠ uuidName) (parse : Bytes → PureRes C)
+    (g : C → PureRes (C × α)) (cs : List (Box C)) (bs : List TopBox) (hc : Corr s cs bs) (cs' : List (Box C)) (a : α)
+    (h : getOneMut (.fourcc nm) parse g cs = .ok (cs', a)) :
+    ∃ b, only nm bs = some b ∧ b ∈ bs ∧
+      ∃ inner r, parse (s.read b.payloadOff b.payloadLen) = .ok inner ∧ g inner = .ok (r, a) := by
+  unfold getOneMut at h
+  split at h
+  · rename_i hcnt
+    obtain ⟨b, pre, post, e0, e1, e2, e3⟩ := modifyFirst_rel s nm hnm parse g cs bs hc cs' a h
+    refine ⟨b, ?_, by rw [e0]; simp, e3⟩
+    rw [(corr_filter_len s nm hnm cs bs hc).1] at hcnt
+    unfold only
+    have hpre : pre.filter (fun x => decide (x.name = nm)) = [] := by
+      rw [List.filter_eq_nil_iff]; intro x hx; simpa using e1 x hx
+    have hf : bs.filter (fun x => decide (x.name = nm)) = b :: post.filter (fun x => decide (x.name = nm)) := by
+      rw [e0, List.filter_append, hpre, List.nil_append, List.filter_cons_of_pos (by simp [e2])]
+    rw [hf] at hcnt ⊢
+    cases hpost : post.filter (fun x => decide (x.name = nm)) with
+    | nil => rfl
+    | cons y ys => rw [hpost] at hcnt; simp at hcnt
+  · cases h
+
+theorem read_append (p a b : Nat) : s.read p (a + b) = s.read p a ++ s.read (p + a) b := by
+  have h := List.take_append_drop a (s.read p (a + b))
+  rw [read_take s p (a + b) a (by omega), read_drop] at h
+  have : a + b - a = b := by omega
+  rw [this] at h
+  exact h.symm
+
+/-- `StcoBox::parse` / `Co64Box::parse` accept exactly what the walker calls a well-formed table -/
+theorem parseCo_table (w : Nat) (b : TopBox) (co : Co) (h : parseCo w (s.read b.payloadOff b.payloadLen) = .ok co) :
+    tableOf s b w = some ⟨b.payloadOff + 8, w, co.count⟩ ∧ w * co.count ≤ 4294967295 := by
+  unfold parseCo at h
+  simp only [read_length] at h
+  split at h; · cases h
+  rename_i h4
+  split at h; · cases h
+  rename_i hv
+  split at h; · cases h
+  rename_i hfl
+  split at h; · cases h
+  rename_i h8
+  rw [read_drop s _ _ 4, read_take s _ _ 4 (by omega)] at h
+  split at h; · cases h
+  rename_i hmul
+  split at h; · cases h
+  split at h; · cases h
+  rename_i hrem
+  simp only [PureRes.ok.injEq] at h
+  subst h
+  dsimp only
+  have hv' : (s.read b.payloadOff b.payloadLen).take 1 = [0] := by simpa using hv
+  have hfl' : ((s.read b.payloadOff b.payloadLen).drop 1).take 3 = [0, 0, 0] := by simpa using hfl
+  rw [read_take s _ _ 1 (by omega)] at hv'
+  rw [read_drop s _ _ 1, read_take s _ _ 3 (by omega)] at hfl'
+  have hzero : beToNat (s.read b.payloadOff 4) = 0 := by
+    have := read_append s b.payloadOff 1 3
+    rw [this, hv', hfl']
+    decide
+  have hrem' : b.payloadLen - 8 = w * beToNat (s.read (b.payloadOff + 4) 4) := by simpa using hrem
+  refine ⟨?_, by unfold Mp4.u32Max at hmul; omega⟩
+  unfold tableOf be
+  have e1 : ¬ b.payloadLen < 8 := by omega
+  have e3 : ¬ b.payloadLen ≠ 8 + w * beToNat (s.read (b.payloadOff + 4) 4) := by omega
+  simp only [e1, if_false, hzero, ne_eq, not_true_eq_false, e3]
+
+theorem corr_mem {C : Type} (cs : List (Box C)) (bs : List TopBox) (hc : Corr s cs bs) :
+    ∀ b ∈ bs, b.payloadOff ≤ b.endOff := by
+  induction cs generalizing bs with
+  | nil =>
+    cases bs with
+    | nil => intro b hb; cases hb
+    | cons b bs => exact hc.elim
+  | cons c cs ih =>
+    cases bs with
+    | nil => exact hc.elim
+    | cons b bs =>
+      obtain ⟨_, _, _, h4, h5⟩ := hc
+      intro x hx
+      rcases List.mem_cons.mp hx with e | e
+      · rw [e]; exact h4
+      · exact ih bs h5 x e
+
+def stcoN : Bytes := [0x73, 0x74, 0x63, 0x6f]
+def co64N : Bytes := [0x63, 0x6f, 0x36, 0x34]
+def trakN : Bytes := [0x74, 0x72, 0x61, 0x6b]
+def mdiaN : Bytes := [0x6d, 0x64, 0x69, 0x61]
+def minfN : Bytes := [0x6d, 0x69, 0x6e, 0x66]
+def stblN : Bytes := [0x73, 0x74, 0x62, 0x6c]
+theorem cc_stco : cc 's' 't' 'c' 'o' = stcoN := by decide
+theorem cc_co64 : cc 'c' 'o' '6' '4' = co64N := by decide
+theorem cc_trak : cc 't' 'r' 'a' 'k' = trakN := by decide
+theorem cc_mdia : cc 'm' 'd' 'i' 'a' = mdiaN := by decide
+theorem cc_minf : cc 'm' 'i' 'n' 'f' = minfN := by decide
+theorem cc_stbl : cc 's' 't' 'b' 'l' = stblN := by decide
+
+theorem only_filter (nm : Bytes) (bs : List TopBox) (b : TopBox) (h : only nm bs = some b) :
+    bs.filter (fun x => decide (x.name = nm)) = [b] := by
+  unfold only at h
+  split at h
+  · rename_i x hx; simp only [Option.some.injEq] at h; subst h; exact hx
+  · cases h
+
+/-- the stbl level: exactly one stco xor co64, well-formed -/
+theorem stbl_rel (cs : L1) (bs : List TopBox) (hc : Corr s cs bs) (cs' : L1) (a : Nat)
+    (h : coMutStbl countOf cs = .ok (cs', a)) :
+    ∃ r, (match bs.filter (fun x => decide (x.name = stcoN)), bs.filter (fun x => decide (x.name = co64N)) with
+      | [b], [] => tableOf s b 4
+      | [], [b] => tableOf s b 8
+      | _, _ => none) = some r ∧ r.width * r.count ≤ 4294967295 := by
+  unfold coMutStbl at h
+  have hs := corr_filter_len s stcoN (by decide) cs bs hc
+  have h6 := corr_filter_len s co64N (by decide) cs bs hc
+  have eS : STCO = BoxType.fourcc stcoN := rfl
+  have e6 : CO64 = BoxType.fourcc co64N := rfl
+  rw [eS, e6] at h
+  dsimp only at h
+  split at h
+  · cases h
+  rename_i hboth
+  split at h
+  · rename_i hst
+    -- stco present, hence no co64
+    have hno6 : hasType (BoxType.fourcc co64N) cs = false := by
+      cases hq : hasType (BoxType.fourcc co64N) cs with
+      | false => rfl
+      | true => rw [hst, hq] at hboth; simp at hboth
+    obtain ⟨b, hb, hbm, inner, r, p1, p2⟩ := getOne_rel s stcoN (by decide) (parseCo 4) countOf cs bs hc cs' a h
+    have hf := only_filter stcoN bs b hb
+    have h6nil : bs.filter (fun x => decide (x.name = co64N)) = [] := by
+      rw [h6.2] at hno6
+      rw [List.filter_eq_nil_iff]
+      intro x hx
+      rw [List.any_eq_false] at hno6
+      exact hno6 x hx
+    obtain ⟨t1, t2⟩ := parseCo_table s 4 b inner p1
+    rw [hf, h6nil]
+    exact ⟨_, t1, t2⟩
+  · rename_i hst
+    have hsnil : bs.filter (fun x => decide (x.name = stcoN)) = [] := by
+      have : hasType (BoxType.fourcc stcoN) cs = false := by simpa using hst
+      rw [hs.2] at this
+      rw [List.filter_eq_nil_iff]
+      intro x hx
+      rw [List.any_eq_false] at this
+      exact this x hx
+    obtain ⟨b, hb, hbm, inner, r, p1, p2⟩ := getOne_rel s co64N (by decide) (parseCo 8) countOf cs bs hc cs' a h
+    have hf := only_filter co64N bs b hb
+    obtain ⟨t1, t2⟩ := parseCo_table s 8 b inner p1
+    rw [hf, hsnil]
+    exact ⟨_, t1, t2⟩
+
+/-- one trak: exactly one mdia > minf > stbl chain ending in one well-formed table -/
+theorem trak_rel (t : TopBox) (hle : t.payloadOff ≤ t.endOff) (l4 l4' : L4) (a : Nat)
+    (hp : parseContainer (s.read t.payloadOff t.payloadLen) = .ok l4) (h : coMutTrak countOf l4 = .ok (l4', a)) :
+    ∃ r, trakTable s t = some r ∧ r.width * r.count ≤ 4294967295 := by
+  unfold coMutTrak at h
+  have eM : MDIA = BoxType.fourcc mdiaN := rfl
+  have eI : MINF = BoxType.fourcc minfN := rfl
+  have eS : STBL = BoxType.fourcc stblN := rfl
+  rw [eM, eI, eS] at h
+  obtain ⟨c1, hc1, corr1⟩ := children_of_parse s t l4 hle hp
+  obtain ⟨mdia, hmdia, hm1, l3, _, p3, g3⟩ := getOne_rel s mdiaN (by decide) parseContainer _ l4 c1 corr1 l4' a h
+  obtain ⟨c2, hc2, corr2⟩ := children_of_parse s mdia l3 (corr_mem s l4 c1 corr1 mdia hm1) p3
+  obtain ⟨minf, hminf, hm2, l2, _, p2, g2⟩ := getOne_rel s minfN (by decide) parseContainer _ l3 c2 corr2 _ a g3
+  obtain ⟨c3, hc3, corr3⟩ := children_of_parse s minf l2 (corr_mem s l3 c2 corr2 minf hm2) p2
+  obtain ⟨stbl, hstbl, hm3, l1, _, p1, g1⟩ := getOne_rel s stblN (by decide) parseContainer _ l2 c3 corr3 _ a g2
+  obtain ⟨c4, hc4, corr4⟩ := children_of_parse s stbl l1 (corr_mem s l2 c3 corr3 stbl hm3) p1
+  obtain ⟨r, hr, hb⟩ := stbl_rel s l1 c4 corr4 _ a g1
+  refine ⟨r, ?_, hb⟩
+  unfold trakTable
+  rw [cc_mdia, cc_minf, cc_stbl, cc_stco, cc_co64]
+  simp only [hc1, hmdia, hc2, hminf, hc3, hstbl, hc4, Option.bind_eq_bind, Option.bind_some]
+  exact hr
+
+/-- every trak of the moov, in order -/
+theorem forTraks_rel (cs : L5) (bs : List TopBox) (hc : Corr s cs bs) (cs' : L5) (as : List Nat)
+    (h : forEachOfType (BoxType.fourcc trakN) parseContainer (coMutTrak countOf) cs = .ok (cs', as)) :
+    ∃ rs, (bs.filter (fun x => decide (x.name = trakN))).mapM (trakTable s) = some rs ∧
+      ∀ r ∈ rs, r.width * r.count ≤ 4294967295 := by
+  induction cs generalizing bs cs' as with
+  | nil =>
+    cases bs with
+    | nil => exact ⟨[], rfl, by intro r hr; cases hr⟩
+    | cons b bs => exact hc.elim
+  | cons c cs ih =>
+    cases bs with
+    | nil => exact hc.elim
+    | cons b bs =>
+      obtain ⟨h1, h2, h3, h4, h5⟩ := hc
+      have e := corr_ty c b trakN (by decide) h1 h2
+      unfold forEachOfType at h
+      rw [e] at h
+      by_cases hb : b.name = trakN
+      · simp only [hb, decide_true, if_true] at h
+        obtain ⟨da, hm, hx⟩ := pure_bind_ok _ _ _ h
+        obtain ⟨d, a⟩ := da
+        obtain ⟨ra, hrec, hy⟩ := pure_bind_ok _ _ _ hx
+        obtain ⟨bs', as'⟩ := ra
+        rw [h3] at hm
+        obtain ⟨inner, r0, p1, p2⟩ := modify_bytes parseContainer (coMutTrak countOf) _ d a hm
+        obtain ⟨r, hr, hbnd⟩ := trak_rel s b h4 inner r0 a p1 p2
+        obtain ⟨rs, hrs, hall⟩ := ih bs h5 bs' as' hrec
+        refine ⟨r :: rs, ?_, ?_⟩
+        · rw [List.filter_cons_of_pos (by simp [hb]), List.mapM_cons, hr]
+          simp only [Option.bind_eq_bind, Option.bind_some, hrs]
+          rfl
+        · intro x hx'
+          rcases List.mem_cons.mp hx' with q | q
+          · rw [q]; exact hbnd
+          · exact hall x q
+      · simp only [hb, decide_false, Bool.false_eq_true, if_false] at h
+        obtain ⟨ra, hrec, hy⟩ := pure_bind_ok _ _ _ h
+        obtain ⟨bs', as'⟩ := ra
+        obtain ⟨rs, hrs, hall⟩ := ih bs h5 bs' as' hrec
+        exact ⟨rs, by rw [List.filter_cons_of_neg (by simp [hb])]; exact hrs, hall⟩
+
+/-- the eager moov validation of the scan loop accepts only what the walker calls a well-formed moov: children clean,
+    at least one trak, every trak with its unique well-formed table below 4 GiB -/
+theorem validateMoov_tables (b : TopBox) (hle : b.payloadOff ≤ b.endOff) (d : Data L5) (total : Nat)
+    (h : validateMoov (.bytes (s.read b.payloadOff b.payloadLen)) = .ok (d, total)) :
+    ∃ rs, moovTables s b = some rs ∧ ∀ r ∈ rs, r.width * r.count ≤ 4294967295 := by
+  unfold validateMoov at h
+  obtain ⟨dc, hm, _⟩ := pure_bind_ok _ _ _ h
+  obtain ⟨d', counts⟩ := dc
+  have hm' : (Data.bytes (s.read b.payloadOff b.payloadLen)).modify parseMoov (forTraks countOf) = .ok (d', counts) := hm
+  obtain ⟨cs, r0, p1, p2⟩ := modify_bytes parseMoov (forTraks countOf) _ d' counts hm'
+  unfold parseMoov at p1
+  obtain ⟨cs0, q1, q2⟩ := pure_bind_ok _ _ _ p1
+  have eT : TRAK = BoxType.fourcc trakN := rfl
+  rw [eT] at q2
+  split at q2
+  · rename_i htr
+    simp only [pure, PureRes.ok.injEq] at q2
+    subst q2
+    obtain ⟨bs, hch, corr⟩ := children_of_parse s b cs0 hle q1
+    unfold forTraks at p2
+    rw [eT] at p2
+    obtain ⟨rs, hrs, hall⟩ := forTraks_rel s cs0 bs corr r0 counts p2
+    refine ⟨rs, ?_, hall⟩
+    unfold moovTables
+    rw [cc_trak]
+    simp only [hch, Option.bind_eq_bind, Option.bind_some]
+    have hne : (bs.filter (fun x => decide (x.name = trakN))).isEmpty = false := by
+      rw [(corr_filter_len s trakN (by decide) cs0 bs corr).2] at htr
+      rw [List.any_eq_true] at htr
+      obtain ⟨x, hx, hxn⟩ := htr
+      cases hf : bs.filter (fun x => decide (x.name = trakN)) with
+      | nil =>
+        have : x ∈ bs.filter (fun x => decide (x.name = trakN)) := List.mem_filter.mpr ⟨hx, hxn⟩
+        rw [hf] at this; cases this
+      | cons y ys => rfl
+    simp only [hne, Bool.false_eq_true, if_false]
+    exact hrs
+  · cases q2
 
 end
 end MediaSan.Mp4
